@@ -25,7 +25,8 @@ WBits(h) == IF h = 0 THEN 15 ELSE h
 (* documented parameter domain *)
 LevelOK(s) == s.level \in 0..3
 FlushOK(s, f) == IF s.api = 1 THEN f \in {0, 2} ELSE f \in 0..2
-LbufOK(s) == s.level = 0 \/ ~LevelOK(s) \/ s.lbuf \in 0..4 \/ (s.api = 1 /\ s.level = 1 /\ s.lbuf = 5)   \* stateless level 1 may borrow the internal buffer
+LbufOK(s) == s.level = 0 \/ ~LevelOK(s) \/ s.lbuf \in 0..4 \/ s.lbuf \in 7..10      \* (7..10: documented sizes at unaligned addresses: no alignment is documented)
+             \/ (s.api = 1 /\ s.level = 1 /\ s.lbuf = 5)   \* stateless level 1 may borrow the internal buffer
 ParamsOK(s, f) == LevelOK(s) /\ FlushOK(s, f) /\ LbufOK(s)
 
 (* decode what has been produced so far as a prefix of a stream (flush point judgement).  The decode is
